@@ -32,14 +32,16 @@ Events == Tr.events
 N == Len(Events)
 Virtual == Tr.mode = "virtual"
 
-ResOf(ev) == [ok |-> ev.ok, kind |-> ev.kind, attr |-> ev.rattr, data |-> ev.rdata, val |-> ev.val,
+\* (for stream operations the text written is passed on: the loose draw body ends at "\n")
+ResOf(ev) == [ok |-> ev.ok, kind |-> ev.kind, attr |-> ev.rattr,
+              data |-> IF ev.call = "stream" THEN ev.data ELSE ev.rdata, val |-> ev.val,
               ready |-> ev.ready, win |-> ev.win]
 
 ArgsMatch(rq, ev) ==
   /\ rq.w = ev.w
   /\ (rq.call = "tcsetattr" => rq.attr = ev.attr)
   /\ (rq.call \in {"write", "more"} => rq.data = ev.data)
-  /\ (rq.call \in {"select", "read", "more"} => rq.a = ev.a)
+  /\ (rq.call \in {"select", "read", "more", "hook"} => rq.a = ev.a)
 
 \* the logged result is the one the environment model gives
 SameRes(r, ev) ==
@@ -50,9 +52,13 @@ SameRes(r, ev) ==
   ELSE /\ ev.rattr = r.attr /\ ev.rdata = r.data /\ ev.ready = r.ready /\ ev.win = r.win
        /\ (ev.call = "write" \/ ev.val = r.val)
 
+\* animated draw: the body is any mix of stream operations and _render_ / interrupt hooks
+LooseBody == m.status = "run" /\ Top(m).fn = "draw" /\ Top(m).pc = "d_body" /\ Top(m).aux < 0
+
 StepClause(ev) ==
   LET rq == Pending(m) IN
   IF m.status # "run" THEN "step:call-after-termination"
+  ELSE IF LooseBody /\ ev.call = "hook" THEN (IF ev.a \in {1, 2} THEN "ok" ELSE "step:unexpected-call")
   ELSE IF ev.call = "select" /\ ev.a = TInf /\ rq.call = "select" /\ rq.a # TInf
     THEN "c12:select-none-with-timeout"
   ELSE IF ev.call # rq.call THEN "step:unexpected-call"
@@ -91,8 +97,10 @@ Step ==
        /\ got' = IF verdict = "ok" /\ c # "ok" THEN ev.call ELSE got
        /\ IF c = "ok"
             THEN /\ m' = Feed(m, ResOf(ev))
-                 /\ e' = IF Virtual THEN (IF ev.eff THEN Respond(e, Pending(m)).env ELSE e) ELSE Follow(ev)
-                 /\ ex' = (ex \/ (~ev.ok /\ OutermostCleanup(m) /\ (~ev.eff \/ Top(m).pc = "d_fin")))
+                 /\ e' = IF Virtual /\ ~(LooseBody /\ ev.call = "hook")
+                            THEN (IF ev.eff THEN Respond(e, Pending(m)).env ELSE e) ELSE Follow(ev)
+                 /\ ex' = (ex \/ (~ev.ok /\ OutermostCleanup(m) /\ (~ev.eff \/ Top(m).pc = "d_fin"))
+                              \/ (~ev.ok /\ LooseBody /\ ev.call = "stream" /\ ev.data = <<10>>))
             ELSE UNCHANGED <<m, e, ex>>
   /\ UNCHANGED tid
 
@@ -119,7 +127,8 @@ EndClause ==
        ELSE "ok")
   ELSE IF f.status = "hung" THEN "c12:blocks-forever"
   ELSE IF m.status = "run" THEN "end:log-ends-before-the-operation"
-  ELSE IF m.status # f.status \/ (m.status = "raised" /\ m.exc # f.kind) THEN "end:outcome-mismatch"
+  ELSE IF Tr.op.nbody >= 0 /\ (m.status # f.status \/ (m.status = "raised" /\ m.exc # f.kind))
+    THEN "end:outcome-mismatch"
   ELSE IF Tr.c13 /\ ~ex /\ f.attr # v.attr0 THEN "c13:attribute-word-not-restored"
   ELSE IF Virtual /\ (f.attr # e.attr \/ f.residual # Residual \/ f.elapsed # e.now)
     THEN "env:final-state-mismatch"
